@@ -62,6 +62,13 @@ def walk_template(s, rep, sc, out: Outcome, where: str, ctype: str, period_dur: 
     out.cls("addr:" + mode)
     stored_n = len(sc["durations"])
     tail_extra = False
+    durs = sc["durations"]
+    # the server's @duration estimate: the mean of the stored durations without the last one (scaled to the
+    # advertised timescale).  C06-K1 is about this estimate being shorter than period / segment-count, nothing else
+    est_ok = False
+    if mode == "number" and stored_n >= 2 and sc.get("timescale"):
+        est = Fraction(sum(durs[:-1]), stored_n - 1) * tpl.timescale / sc["timescale"]
+        est_ok = abs(Fraction(tpl.duration) - est) <= 1
     if mode == "number" and len(items) == stored_n + 1 and \
             period_dur * tpl.timescale - stored_n * tpl.duration < tpl.duration:
         # the advertised average @duration is shorter than (period duration / stored segments): a client
@@ -71,6 +78,14 @@ def walk_template(s, rep, sc, out: Outcome, where: str, ctype: str, period_dur: 
                  f"{where}: ceil({float(period_dur)}s x {tpl.timescale} / {tpl.duration}) = {len(items)} numbers, "
                  f"the file holds {stored_n} segments")
         items = items[:-1]
+        past = rep.media_url(number=tpl.start_number + stored_n)
+    elif mode == "number" and len(items) > stored_n + 1 and est_ok:
+        # the same estimate, made much shorter by a runt segment that is not the last one: several surplus numbers
+        tail_extra = True
+        out.fail(f"number/{ctype}/tail-number-beyond-stored-media",
+                 f"{where}: ceil({float(period_dur)}s x {tpl.timescale} / {tpl.duration}) = {len(items)} numbers, "
+                 f"the file holds {stored_n} segments; @duration is the mean of all but the last stored duration")
+        items = items[:stored_n]
         past = rep.media_url(number=tpl.start_number + stored_n)
     if len(items) != stored_n:
         out.fail(f"{mode}/{ctype}/enumerated-count!=stored-segments",
